@@ -417,14 +417,14 @@ uint64_t vrt_races() { return g_races; }
 
 // =============================================================================================
 // TSan ABI: atomics
-#define VRT_ATOMIC(N, T)                                                                                      \
+#define VRT_ATOMIC(N, T, U)                                                                                     \
   T __tsan_atomic##N##_load(const volatile T* a, int mo) {                                                    \
     if (!controlled()) return __atomic_load_n(a, __ATOMIC_SEQ_CST);                                           \
     reschedule(false);                                                                                        \
     T v = __atomic_load_n(a, __ATOMIC_SEQ_CST);                                                               \
     hb_load(t_self, a, mo);                                                                                   \
     char nm[160];                                                                                             \
-    if (loc_name(a, nm, sizeof nm)) tracef("%d ld %s %s %lld\n", t_self->id, nm, mo_name(mo), (long long)v); \
+    if (loc_name(a, nm, sizeof nm)) tracef("%d ld %s %s %llu\n", t_self->id, nm, mo_name(mo), (unsigned long long)(U)v); \
     return v;                                                                                                 \
   }                                                                                                           \
   void __tsan_atomic##N##_store(volatile T* a, T v, int mo) {                                                 \
@@ -433,7 +433,7 @@ uint64_t vrt_races() { return g_races; }
     __atomic_store_n(a, v, __ATOMIC_SEQ_CST);                                                                 \
     hb_store(t_self, a, mo, false);                                                                           \
     char nm[160];                                                                                             \
-    if (loc_name(a, nm, sizeof nm)) tracef("%d st %s %s %lld\n", t_self->id, nm, mo_name(mo), (long long)v); \
+    if (loc_name(a, nm, sizeof nm)) tracef("%d st %s %s %llu\n", t_self->id, nm, mo_name(mo), (unsigned long long)(U)v); \
   }                                                                                                           \
   T __tsan_atomic##N##_exchange(volatile T* a, T v, int mo) {                                                 \
     if (!controlled()) return __atomic_exchange_n(a, v, __ATOMIC_SEQ_CST);                                    \
@@ -443,7 +443,7 @@ uint64_t vrt_races() { return g_races; }
     hb_store(t_self, a, mo, true);                                                                            \
     char nm[160];                                                                                             \
     if (loc_name(a, nm, sizeof nm))                                                                           \
-      tracef("%d xchg %s %s %lld %lld\n", t_self->id, nm, mo_name(mo), (long long)old, (long long)v);        \
+      tracef("%d xchg %s %s %llu %llu\n", t_self->id, nm, mo_name(mo), (unsigned long long)(U)old, (unsigned long long)(U)v);        \
     return old;                                                                                               \
   }                                                                                                           \
   static int vrt_cas##N(volatile T* a, T* c, T v, int mo, int fmo, bool weak) {                               \
@@ -460,8 +460,8 @@ uint64_t vrt_races() { return g_races; }
     if (ok) { hb_load(t_self, a, mo); hb_store(t_self, a, mo, true); } else { hb_load(t_self, a, fmo); }      \
     char nm[160];                                                                                             \
     if (loc_name(a, nm, sizeof nm))                                                                           \
-      tracef("%d cas%s %s %s %s %lld %lld %d %lld\n", t_self->id, weak ? "w" : "", nm, mo_name(mo), mo_name(fmo), \
-             (long long)expected, (long long)v, ok, (long long)cur);                                          \
+      tracef("%d cas%s %s %s %s %llu %llu %d %llu\n", t_self->id, weak ? "w" : "", nm, mo_name(mo), mo_name(fmo), \
+             (unsigned long long)(U)expected, (unsigned long long)(U)v, ok, (unsigned long long)(U)cur);                                          \
     return ok;                                                                                                \
   }                                                                                                           \
   int __tsan_atomic##N##_compare_exchange_strong(volatile T* a, T* c, T v, int mo, int fmo) {                 \
@@ -474,7 +474,7 @@ uint64_t vrt_races() { return g_races; }
     vrt_cas##N(a, &c, v, mo, fmo, false);                                                                     \
     return c;                                                                                                 \
   }
-#define VRT_RMW(N, T, NAME, BUILTIN)                                                                          \
+#define VRT_RMW(N, T, U, NAME, BUILTIN)                                                                         \
   T __tsan_atomic##N##_fetch_##NAME(volatile T* a, T v, int mo) {                                             \
     if (!controlled()) return BUILTIN(a, v, __ATOMIC_SEQ_CST);                                                \
     reschedule(false);                                                                                        \
@@ -483,22 +483,22 @@ uint64_t vrt_races() { return g_races; }
     hb_store(t_self, a, mo, true);                                                                            \
     char nm[160];                                                                                             \
     if (loc_name(a, nm, sizeof nm))                                                                           \
-      tracef("%d rmw " #NAME " %s %s %lld %lld\n", t_self->id, nm, mo_name(mo), (long long)old, (long long)v); \
+      tracef("%d rmw " #NAME " %s %s %llu %llu\n", t_self->id, nm, mo_name(mo), (unsigned long long)(U)old, (unsigned long long)(U)v); \
     return old;                                                                                               \
   }
-#define VRT_ALL(N, T)                       \
-  VRT_ATOMIC(N, T)                          \
-  VRT_RMW(N, T, add, __atomic_fetch_add)    \
-  VRT_RMW(N, T, sub, __atomic_fetch_sub)    \
-  VRT_RMW(N, T, and, __atomic_fetch_and)    \
-  VRT_RMW(N, T, or, __atomic_fetch_or)      \
-  VRT_RMW(N, T, xor, __atomic_fetch_xor)    \
-  VRT_RMW(N, T, nand, __atomic_fetch_nand)
+#define VRT_ALL(N, T, U)                    \
+  VRT_ATOMIC(N, T, U)                        \
+  VRT_RMW(N, T, U, add, __atomic_fetch_add)    \
+  VRT_RMW(N, T, U, sub, __atomic_fetch_sub)    \
+  VRT_RMW(N, T, U, and, __atomic_fetch_and)    \
+  VRT_RMW(N, T, U, or, __atomic_fetch_or)      \
+  VRT_RMW(N, T, U, xor, __atomic_fetch_xor)    \
+  VRT_RMW(N, T, U, nand, __atomic_fetch_nand)
 
-VRT_ALL(8, signed char)
-VRT_ALL(16, short)
-VRT_ALL(32, int)
-VRT_ALL(64, long)
+VRT_ALL(8, signed char, unsigned char)
+VRT_ALL(16, short, unsigned short)
+VRT_ALL(32, int, unsigned int)
+VRT_ALL(64, long, unsigned long)
 
 void __tsan_atomic_thread_fence(int mo) {
   if (!controlled()) { __atomic_thread_fence(__ATOMIC_SEQ_CST); return; }
